@@ -125,6 +125,31 @@ def timecode(ctx, report, folder):
     inc_all = [n for n in walk_no_nested(inc.node) if isinstance(n, (ast.AugAssign, ast.Assign))]
     report.check(len(inc_ok) == 1 and len(inc_all) == 1, "R-AFFINE", inc, "increment_frames adds exactly one frame",
                  [short(n) for n in inc_all], "1")
+    # nothing else writes the counter (it counts code words, one per increment_frames call)
+    tcls = ctx.index.get_class(SCC, "_SccTimeTranslator")
+    others = []
+    for name, m in tcls.methods.items():
+        if name in ("start_at", "increment_frames", "__init__"):
+            continue
+        for n in walk_no_nested(m.node):
+            if isinstance(n, (ast.Assign, ast.AugAssign)) and any(
+                    src(t) == "self._frames" for t in (n.targets if isinstance(n, ast.Assign) else [n.target])):
+                others.append(f"{name}: {short(n)}")
+    ext = []
+    for mod in ctx.index.modules.values():
+        for fn_ in list(mod.functions.values()) + [m for c in mod.classes.values() for m in c.methods.values()]:
+            if fn_.cls is tcls:
+                continue
+            for n in walk_no_nested(fn_.node):
+                if isinstance(n, (ast.Assign, ast.AugAssign)):
+                    for t in (n.targets if isinstance(n, ast.Assign) else [n.target]):
+                        if isinstance(t, ast.Attribute) and t.attr == "_frames":
+                            ext.append(f"{fn_.qualname}: {short(n)}")
+    report.check(not others and not ext, "R-WHO-WRITES", (SCC, "_SccTimeTranslator"),
+                 "the frame counter is written only by start_at (to zero) and increment_frames (plus one)",
+                 {"other_writers": others + ext,
+                  "why": "a caption starts one frame per preceding CODE WORD after the line's timecode; any other way "
+                         "of setting the counter (token position, word index) counts something else"}, "1")
 
 
 def frame_counting(ctx, report):
